@@ -17,6 +17,7 @@ var customFunc = config.NewFunc()
 var usesTemplates = false
 
 func NewTemplate(opt *config.Config) (*Template, error) {
+	defer verifGate("NewTemplate.exit")
 	Configure(opt)
 
 	paths, err := findTextwireFiles()
@@ -34,6 +35,8 @@ func NewTemplate(opt *config.Config) (*Template, error) {
 }
 
 func EvaluateString(inp string, data map[string]any) (string, error) {
+	defer verifGate("EvaluateString.exit")
+	verifGate("EvaluateString.writeMode")
 	usesTemplates = false
 
 	prog, errs := parseStr(inp)
@@ -60,6 +63,8 @@ func EvaluateString(inp string, data map[string]any) (string, error) {
 }
 
 func EvaluateFile(absPath string, data map[string]any) (string, error) {
+	defer verifGate("EvaluateFile.exit")
+	verifGate("EvaluateFile.writeMode")
 	usesTemplates = false
 
 	content, err := fileContent(absPath)
@@ -76,6 +81,7 @@ func EvaluateFile(absPath string, data map[string]any) (string, error) {
 }
 
 func RegisterStrFunc(name string, fn config.StrCustomFunc) error {
+	defer verifGate("RegisterStrFunc.exit")
 	if _, ok := customFunc.Str[name]; ok {
 		return fail.New(0, "", "API", fail.ErrFuncAlreadyDefined, name, "strings").Error()
 	}
@@ -86,6 +92,7 @@ func RegisterStrFunc(name string, fn config.StrCustomFunc) error {
 }
 
 func RegisterArrFunc(name string, fn config.ArrayCustomFunc) error {
+	defer verifGate("RegisterArrFunc.exit")
 	if _, ok := customFunc.Arr[name]; ok {
 		return fail.New(0, "", "API", fail.ErrFuncAlreadyDefined, name, "arrays").Error()
 	}
@@ -96,6 +103,7 @@ func RegisterArrFunc(name string, fn config.ArrayCustomFunc) error {
 }
 
 func RegisterIntFunc(name string, fn config.IntCustomFunc) error {
+	defer verifGate("RegisterIntFunc.exit")
 	if _, ok := customFunc.Int[name]; ok {
 		return fail.New(0, "", "API", fail.ErrFuncAlreadyDefined, name, "integers").Error()
 	}
@@ -106,6 +114,7 @@ func RegisterIntFunc(name string, fn config.IntCustomFunc) error {
 }
 
 func RegisterFloatFunc(name string, fn config.FloatCustomFunc) error {
+	defer verifGate("RegisterFloatFunc.exit")
 	if _, ok := customFunc.Float[name]; ok {
 		return fail.New(0, "", "API", fail.ErrFuncAlreadyDefined, name, "floats").Error()
 	}
@@ -116,6 +125,7 @@ func RegisterFloatFunc(name string, fn config.FloatCustomFunc) error {
 }
 
 func RegisterBoolFunc(name string, fn config.BoolCustomFunc) error {
+	defer verifGate("RegisterBoolFunc.exit")
 	if _, ok := customFunc.Bool[name]; ok {
 		return fail.New(0, "", "API", fail.ErrFuncAlreadyDefined, name, "booleans").Error()
 	}
@@ -126,6 +136,7 @@ func RegisterBoolFunc(name string, fn config.BoolCustomFunc) error {
 }
 
 func Configure(opt *config.Config) {
+	verifGate("Configure.writeMode")
 	usesTemplates = true
 
 	if opt == nil {
